@@ -242,11 +242,17 @@ def genericDiagonalUpdate (s : GenericSampler) (β : Rat) (rs : RS) : GenericSam
 def GenericSampler.withCfg (s : GenericSampler) (c : Config) : GenericSampler :=
   { s with state := c.state, slots := c.slots }
 
+/-- `diagonal_update(beta); if should_do_loop_update() { loop_update() }`: configuration and RNG after
+the loop update (the closure `h` of `loop_update` is `bonds[bond].at(ins, outs)` = the Hamiltonian's weights) -/
+def genericLoopStage (LK : LoopK) (s : GenericSampler) (β : Rat) (rs : RS) : Config × RS :=
+  let d := genericDiagonalUpdate s β rs
+  if d.1.doLoop then LK d.1.ham.w d.1.cfg d.2 else (d.1.cfg, d.2)
+
 /-- `Qmc::timestep(beta)`, the loop and cluster kernels as parameters -/
 def genericTimestepWith (LK : LoopK) (CK : ClusterK) (s : GenericSampler) (β : Rat) (rs : RS) :
     GenericSampler × RS :=
   let d := genericDiagonalUpdate s β rs
-  let l := if d.1.doLoop then LK d.1.ham.w d.1.cfg d.2 else (d.1.cfg, d.2)
+  let l := genericLoopStage LK s β rs
   let m := if d.1.shouldCluster then CK (1 / 2) (fun _ => false) l.1 l.2 else l
   let r := freeRefresh m.1 m.2
   (d.1.withCfg r.1, r.2)
@@ -262,5 +268,13 @@ def genericTraceWith (LK : LoopK) (CK : ClusterK) : List Rat → GenericSampler 
   | β :: t, s, rs =>
     let r := genericTimestepWith LK CK s β rs
     r.1 :: genericTraceWith LK CK t r.1 r.2
+
+/-- every loop update of the run closed (no modelled panic, script not exhausted) — with the real,
+inexhaustible RNG every `loop_update` that returns has closed -/
+def GenericLoopsClosed (LK : LoopK) (CK : ClusterK) : List Rat → GenericSampler → RS → Prop
+  | [], _, _ => True
+  | β :: t, s, rs =>
+    (s.doLoop = true → (genericLoopStage LK s β rs).2.panicked = false ∧ (genericLoopStage LK s β rs).2.short = false) ∧
+    GenericLoopsClosed LK CK t (genericTimestepWith LK CK s β rs).1 (genericTimestepWith LK CK s β rs).2
 
 end Qmc.Sampler
